@@ -1,9 +1,15 @@
 #!/bin/sh
-# apply a patch to /repo, run one property's check, undo the patch:  tools/try_patch.sh C09 /path/to/patch.diff [tier]
+# apply a patch to a scratch worktree of /repo's HEAD, run one property's check against it, remove the change:
+#   tools/try_patch.sh C09 /path/to/patch.diff [tier]
+# (neither /repo nor /verif/evidence is touched: NV_REPO / NV_OUT)
 p=$1; patch=$2; tier=${3:-quick}
 cd /verif
-test -z "$(git -C /repo status --porcelain -- src)" || { echo "/repo has local changes"; exit 2; }
-git -C /repo apply "$patch" || { echo "patch does not apply"; exit 2; }
-./check $p --tier $tier > /tmp/t1/try_$p.log 2>&1; rc=$?
-git -C /repo checkout -- .
-echo "$p exit $rc :: $(grep -E 'violation\(s\) in total|^C[0-9]+ ' /tmp/t1/try_$p.log | tr '\n' ' ' | cut -c1-300)"
+wt=/tmp/nv-tryrepo-$$
+git -C /repo worktree add --detach $wt HEAD -q || exit 2
+if git -C $wt apply "$patch"; then
+  NV_REPO=$wt NV_OUT=/tmp/nv-tryout-$$ ./check $p --tier $tier > /tmp/t1/try_$p.log 2>&1; rc=$?
+  echo "$p exit $rc :: $(grep -E 'violation\(s\) in total|^C[0-9]+ ' /tmp/t1/try_$p.log | tr '\n' ' ' | cut -c1-300)"
+else
+  echo "$p: patch does not apply"
+fi
+git -C /repo worktree remove --force $wt; rm -rf /tmp/nv-tryout-$$
